@@ -11,6 +11,7 @@ RMAXEventListener (harness/impl/c17_impl.py) ->
   (c) an independent Fraction oracle of the property's clauses (from the experience alone), used to
       exhibit a concrete failing clause when (a) rejects.
 """
+import os
 from fractions import Fraction as F
 import vlib
 from vlib import q, qlist, qmat, qten, nat, natlist, blist, coqlist
@@ -45,6 +46,9 @@ Definition mir nS nA m g rmax tol (exp : list (@step Q)) (Qi : list (list Q)) ep
 
 CLAUSES = ["c_valid", "c_tally", "c_upper", "c_unknown", "c_bellman", "c_policy"]
 GAMMAS = ["1/2", "3/4", "7/8"]
+SLOW_GAMMAS = ["63/64", "127/128", "255/256"]
+# reuse of one RMAX object on MDPs of different table sizes (off: msdm raises IndexError there, reported)
+REUSE_ANY_SIZE = os.environ.get("C17_REUSE_ANY_SIZE", "0") == "1"
 
 
 # ---------------------------------------------------------------------------------------------
@@ -59,20 +63,11 @@ def rmax_of(m):
     return max(x for row in R for r2 in row for x in r2)
 
 
-def gen_case(rng, tier):
-    gamma = rng.choice(GAMMAS)
-    nmax = 5 if tier == "quick" else 6
-    keep_trivial = rng.random() < .08
-    for _ in range(50):
-        m = gen_mdp.gen_mdp(rng, nmax=nmax, amax=3, gamma=gamma, proper=True, uniform_actions=True,
-                            min_states=1 if keep_trivial else 2)
-        starts = [s for s, p in m["init"] if F(p) > 0]
-        if keep_trivial or any(not m["absorbing"][s] for s in starts):
-            break
-    # how the MDP presents its actions: labels (ints, ints in shuffled naming, or strings whose sorted
-    # order differs from the id order) and the ORDER in which actions(s) lists them (sorted / one
-    # shuffled order for all states / a different shuffled order per state).  msdm sorts action_list,
-    # so positions in action_list differ from positions in actions(s); results are mapped by label.
+def presentation(rng, m):
+    """how the MDP presents its actions: labels (ints, ints in shuffled naming, or strings whose sorted
+    order differs from the id order) and the ORDER in which actions(s) lists them (sorted / one
+    shuffled order for all states / a different shuffled order per state).  msdm sorts action_list,
+    so positions in action_list differ from positions in actions(s); results are mapped by label."""
     nA = m["nA"]
     kind = rng.random()
     if kind < .3:
@@ -89,11 +84,88 @@ def gen_case(rng, tier):
         perm = [list(p0) for _ in range(m["n"])]
     else:
         perm = [rng.sample(range(nA), nA) for _ in range(m["n"])]
-    return {"mdp": m, "action_labels": labels, "action_perm": perm,
-            "m": rng.randint(1, 5), "episodes": rng.randint(1, 30),
+    return {"action_labels": labels, "action_perm": perm}
+
+
+def gen_main_mdp(rng, tier, gamma, keep_trivial=False):
+    nmax = 5 if tier == "quick" else 6
+    for _ in range(50):
+        m = gen_mdp.gen_mdp(rng, nmax=nmax, amax=3, gamma=gamma, proper=True, uniform_actions=True,
+                            min_states=1 if keep_trivial else 2)
+        starts = [s for s, p in m["init"] if F(p) > 0]
+        if keep_trivial or any(not m["absorbing"][s] for s in starts):
+            break
+    return m
+
+
+def table_size(m):
+    """(n_states, n_actions) of the learner's tables: reachable states x all actions"""
+    reach = gen_mdp.reachable(m)
+    return len(reach), len({a for s in reach for a in m["actions"][s]})
+
+
+def gen_slow_mdp(rng):
+    """slow-decay family: a tiny proper MDP whose non-absorbing states form a zero-reward cycle
+    (or self-loop) left only with small probability, the only positive reward sitting on the exit
+    transition, gamma close to 1.  When the first m samples of every pair of the cycle stay inside it,
+    the empirical model of the known pairs is a closed zero-reward cycle and value iteration has to
+    decay the optimistic values at rate gamma: thousands of sweeps before the tolerance is met."""
+    gamma = rng.choice(SLOW_GAMMAS)
+    ncyc = rng.choice([1, 2, 2])
+    nA = rng.choice([1, 1, 2])
+    stay = rng.choice(["7/8", "15/16"])
+    leave = str(1 - F(stay))
+    exit_reward = rng.choice(["1", "1", "2", "4", "1/4"])
+    n = ncyc + 1
+    trans, reward = {}, {}
+    for s in range(ncyc):
+        for a in range(nA):
+            nxt = (s + 1) % ncyc
+            row = [[nxt, stay], [ncyc, leave]]
+            rng.shuffle(row)
+            trans["%d,%d" % (s, a)] = row
+            reward["%d,%d,%d" % (s, a, ncyc)] = exit_reward
+    for a in range(nA):
+        trans["%d,%d" % (ncyc, a)] = [[ncyc, "1"]]
+    return {"n": n, "nA": nA, "actions": [list(range(nA)) for _ in range(n)], "trans": trans, "reward": reward,
+            "absorbing": [False] * ncyc + [True], "init": [[0, "1"]], "gamma": gamma}
+
+
+def gen_case(rng, tier):
+    if rng.random() < .08:
+        # slow-decay family: certificate only (an exact mirror would need thousands of exact sweeps)
+        m = gen_slow_mdp(rng)
+        case = {"mdp": m, "m": rng.choice([1, 1, 2]), "episodes": rng.randint(3, 10),
+                "seed": rng.randrange(2 ** 31), "tol": "1/100000", "rmax": str(rmax_of(m)),
+                "family": "slow-decay", "mirror": False}
+        case.update(presentation(rng, m))
+        return case
+    gamma = rng.choice(GAMMAS)
+    m = gen_main_mdp(rng, tier, gamma, keep_trivial=rng.random() < .08)
+    case = {"mdp": m, "m": rng.randint(1, 5), "episodes": rng.randint(1, 30),
             "seed": rng.randrange(2 ** 31),
             "tol": rng.choice(["1/100000"] * 3 + ["1/1000", "1/10"]),
             "rmax": str(rmax_of(m))}
+    case.update(presentation(rng, m))
+    if rng.random() < .2:
+        # object reuse: the SAME RMAX object is trained on this MDP and then on a second MDP with a
+        # different discount rate (and its own rewards / rmax); each result is judged with its own MDP.
+        # The second MDP has the same table size unless REUSE_ANY_SIZE (see known defect in the report:
+        # reuse on a different table size raises IndexError from the cached _self_transition_mat).
+        g2 = rng.choice([g for g in GAMMAS if g != gamma])
+        m2 = None
+        for _ in range(200):
+            cand = gen_main_mdp(rng, tier, g2)
+            if REUSE_ANY_SIZE or table_size(cand) == table_size(m):
+                m2 = cand
+                break
+        if m2 is None:
+            # same structure, other discount, rewards doubled
+            m2 = dict(m, gamma=g2, reward={k: str(2 * F(v)) for k, v in m["reward"].items()})
+        then = {"mdp": m2, "rmax": str(rmax_of(m2))}
+        then.update(presentation(rng, m2))
+        case["then"] = then
+    return case
 
 
 # ---------------------------------------------------------------------------------------------
@@ -204,49 +276,70 @@ def run(ctx):
     else:
         cases = [gen_case(ctx.rng, tier) for _ in range(ncases)]
     impl = ctx.impl("c17_impl.py", {"cases": cases}, shards=min(ctx.jobs, 4 if tier == "quick" else 16))["results"]
+    # judged units: one per train_on call.  A reuse case (case["then"]) gives two units, each judged by
+    # the same certificate with its OWN MDP; view = the parameters of that call, case = the replayable case
+    units = []
+    for case, res in zip(cases, impl):
+        if "error" in res:
+            ctx.violation("C17:impl-error:" + res["error"].split(":")[0],
+                          {"case": case, "error": res["error"], "trace": res.get("trace", "")}, found=True)
+            continue
+        units.append((case, case, res, "first"))
+        if "then" in case:
+            view = {k: v for k, v in case.items() if k != "then"}
+            view.update(case["then"])
+            r2 = res.get("second")
+            if r2 is None or "error" in r2:
+                err = (r2 or {}).get("error", "no result")
+                ctx.violation("C17:reuse:second-train_on-raises:" + err.split(":")[0],
+                              {"case": case, "error": err, "trace": (r2 or {}).get("trace", "")}, found=True)
+            else:
+                units.append((case, view, r2, "reused"))
     terms, meta = [], []
     info = {}
     counters = {"trivial_no_steps": 0, "with_known_pairs": 0, "with_known_and_unknown_tried": 0,
                 "steps_total": 0, "steps_max": 0, "known_pairs_total": 0, "ignored_samples_total": 0,
                 "upper_bound_exceeded_within_float_slack": 0,
                 "actions_listed_in_other_than_action_list_order": 0, "per_state_action_orders_differ": 0,
-                "string_action_labels": 0, "multi_action": 0}
+                "string_action_labels": 0, "multi_action": 0,
+                "reused_object_second_trainings": 0, "reused_with_different_table_size": 0,
+                "slow_decay_family": 0, "slow_decay_family_closed_known_cycle_decayed": 0,
+                "mirror_skipped_slow_decay_family": 0}
     by_gamma, by_m = {}, {}
-    for i, (case, res) in enumerate(zip(cases, impl)):
-        if "error" in res:
-            ctx.violation("C17:impl-error:" + res["error"].split(":")[0],
-                          {"case": case, "error": res["error"], "trace": res.get("trace", "")}, found=True)
-            continue
-        sp = structure_problem(case, res)
+    for u, (case, view, res, tag) in enumerate(units):
+        sp = structure_problem(view, res)
         if sp:
-            ctx.violation("C17:output-structure:" + sp, {"case": case, "impl": res}, found=True)
+            ctx.violation("C17:output-structure:" + sp, {"case": case, "training": tag, "impl": res}, found=True)
             continue
         sl, al = res["state_list"], res["action_list"]
         nS, nA = len(sl), len(al)
-        P, R, av, absf, ini = gen_mdp.arrays(case["mdp"], sl, al)
-        g, rmax, tol = F(case["mdp"]["gamma"]), F(case["rmax"]), F(case["tol"])
+        P, R, av, absf, ini = gen_mdp.arrays(view["mdp"], sl, al)
+        g, rmax, tol = F(view["mdp"]["gamma"]), F(view["rmax"]), F(view["tol"])
         q0 = rmax / (1 - g)
         Qv = [[vlib.frac(x) for x in row] for row in res["Q"]]
         scale = max([F(1), abs(q0)] + [abs(x) for row in Qv for x in row])
         slack = F(1, 10 ** 9) * scale
-        info[i] = {"slack": slack}
+        info[u] = {"slack": slack}
         exp = [st for ep in res["episodes"] for st in ep["steps"]]
         eps_t = coqlist("(%s, %s)" % (coqlist(step_term(st) for st in ep["steps"]), nat(ep["end"]))
                         for ep in res["episodes"])
-        head = " ".join([nat(nS), nat(nA), nat(case["m"]), q(g), q(rmax)])
+        head = " ".join([nat(nS), nat(nA), nat(view["m"]), q(g), q(rmax)])
         terms.append("chk %s %s %s %s %s %s %s %s %s %s %s %s %s %s" % (
             head, qten(P), qten(R), blist(absf), qlist(ini), eps_t,
             qmat(res["rewards"]), nmat(res["counts"]),
             coqlist(nmat(r2) for r2 in res["transitions"]),
             qmat(res["Q"]), qmat(res["pi"]), q(slack), q(tol + slack), q(F(1, 10 ** 12))))
-        meta.append(("chk", i))
-        terms.append("mir %s %s %s %s %s" % (head, q(tol), coqlist(step_term(st) for st in exp),
-                                            qmat(res["Q"]), q(slack)))
-        meta.append(("mir", i))
+        meta.append(("chk", u))
+        if view.get("mirror", True):
+            terms.append("mir %s %s %s %s %s" % (head, q(tol), coqlist(step_term(st) for st in exp),
+                                                qmat(res["Q"]), q(slack)))
+            meta.append(("mir", u))
+        else:
+            counters["mirror_skipped_slow_decay_family"] += 1
         # input-distribution counters
         cnt = [[int(vlib.frac(x)) for x in row] for row in res["counts"]]
-        known = sum(1 for row in cnt for x in row if x >= case["m"])
-        partial = sum(1 for row in cnt for x in row if 0 < x < case["m"])
+        known = sum(1 for row in cnt for x in row if x >= view["m"])
+        partial = sum(1 for row in cnt for x in row if 0 < x < view["m"])
         counters["trivial_no_steps"] += int(not exp)
         counters["with_known_pairs"] += int(known > 0)
         counters["with_known_and_unknown_tried"] += int(known > 0 and partial > 0)
@@ -255,46 +348,55 @@ def run(ctx):
         counters["known_pairs_total"] += known
         counters["ignored_samples_total"] += len(exp) - sum(x for row in cnt for x in row)
         counters["upper_bound_exceeded_within_float_slack"] += int(any(x > q0 for row in Qv for x in row))
-        perm = case.get("action_perm") or [al]
+        perm = view.get("action_perm") or [al]
         counters["actions_listed_in_other_than_action_list_order"] += int(any(list(p) != list(al) for p in perm))
         counters["per_state_action_orders_differ"] += int(len({tuple(p) for p in perm}) > 1)
-        counters["string_action_labels"] += int(any(isinstance(x, str) for x in (case.get("action_labels") or [])))
+        counters["string_action_labels"] += int(any(isinstance(x, str) for x in (view.get("action_labels") or [])))
         counters["multi_action"] += int(nA > 1)
-        by_gamma[case["mdp"]["gamma"]] = by_gamma.get(case["mdp"]["gamma"], 0) + 1
-        by_m[str(case["m"])] = by_m.get(str(case["m"]), 0) + 1
-        info[i]["known"] = known
+        if tag == "reused":
+            counters["reused_object_second_trainings"] += 1
+            counters["reused_with_different_table_size"] += int(table_size(case["mdp"]) != table_size(view["mdp"]))
+        if view.get("family") == "slow-decay":
+            counters["slow_decay_family"] += 1
+            live = [s for s in range(nS) if not absf[s]]
+            counters["slow_decay_family_closed_known_cycle_decayed"] += int(
+                q0 > 0 and all(cnt[s][a] >= view["m"] and Qv[s][a] < q0 / 100 for s in live for a in range(nA)))
+        by_gamma[view["mdp"]["gamma"]] = by_gamma.get(view["mdp"]["gamma"], 0) + 1
+        by_m[str(view["m"])] = by_m.get(str(view["m"]), 0) + 1
+        info[u]["known"] = known
     vals = ctx.coq(PRE, terms, shard=16 if tier == "quick" else 50)
     nchk = nmir = drift = fuel_out = act_mismatch = 0
     distinct = set()
     rejected = set()
-    for (kind, i), v in zip(meta, vals):
-        case, res = cases[i], impl[i]
+    for (kind, u), v in zip(meta, vals):
+        case, view, res, tag = units[u]
         if isinstance(v, vlib.CoqError):
-            ctx.violation("C17:coq-evaluation-failed", {"case": case, "kind": kind, "error": str(v)[:800]}, found=False)
+            ctx.violation("C17:coq-evaluation-failed", {"case": case, "training": tag, "kind": kind, "error": str(v)[:800]}, found=False)
             continue
+        pre = "C17:" if tag == "first" else "C17:reused-object:"
         if kind == "chk":
             nchk += 1
-            if info[i]["known"] > 0:
-                distinct.add(vlib.structural_hash(case))
+            if info[u]["known"] > 0:
+                distinct.add(vlib.structural_hash([case, tag]))
             failed = [c for c, okv in zip(CLAUSES, v) if not okv]
             if failed:
-                rejected.add(i)
-                why = oracle(case, res, info[i]["slack"])
-                detail = {"case": case, "failed_clauses": failed, "impl": res}
+                rejected.add(u)
+                why = oracle(view, res, info[u]["slack"])
+                detail = {"case": case, "training": tag, "failed_clauses": failed, "impl": res}
                 if why:
                     detail["failing_clause"] = why
-                    ctx.violation("C17:%s" % why["clause"], detail, found=True)
+                    ctx.violation(pre + why["clause"], detail, found=True)
                 else:
                     detail["correspondence"] = "model/RMax.v:c17_check (theorems props/C17.v) rejects the implementation's output"
-                    ctx.violation("C17:certificate-rejects:%s" % "+".join(failed), detail, found=False)
+                    ctx.violation(pre + "certificate-rejects:%s" % "+".join(failed), detail, found=False)
             else:
-                why = oracle(case, res, info[i]["slack"])
+                why = oracle(view, res, info[u]["slack"])
                 if why:   # the independent oracle and the proved checker must agree
-                    ctx.violation("C17:oracle-disagrees-with-certificate:%s" % why["clause"],
-                                  {"case": case, "failing_clause": why, "impl": res}, found=False)
+                    ctx.violation(pre + "oracle-disagrees-with-certificate:%s" % why["clause"],
+                                  {"case": case, "training": tag, "failing_clause": why, "impl": res}, found=False)
                 elif res["Q"] != res["q_matrix"]:
                     # every clause holds for the returned dict, yet it is not the learner's table read by label
-                    ctx.violation("C17:q-dict-differs-from-q-matrix", {"case": case, "impl": res}, found=False)
+                    ctx.violation(pre + "q-dict-differs-from-q-matrix", {"case": case, "training": tag, "impl": res}, found=False)
         else:
             nmir += 1
             ok, close, actok = v
@@ -308,15 +410,19 @@ def run(ctx):
     ctx.coverage.update({
         "evaluations": nchk + nmir,
         "distinct_nontrivial": len(distinct),
-        "rule": "proper MDPs from harness/gen_mdp.py (proper=True, uniform_actions=True: 1..%d states, 1..3 actions available in every state, "
+        "rule": "three families.  MAIN (about 92%%): proper MDPs from harness/gen_mdp.py (proper=True, uniform_actions=True: 1..%d states, 1..3 actions available in every state, "
                 "k/8 probabilities, zero entries, duplicate rows, explicit absorbing goals possibly with ignored self-loop rewards, "
                 "multi-state initial distributions, rewards in quarters), gamma in {1/2,3/4,7/8}, threshold m in 1..5, episodes 1..30, "
                 "random seed, tolerance in {1e-5 (x3), 1e-3, 1e-1}, action labels ints / renamed ints / strings and actions(s) listing them "
                 "sorted / in one shuffled order / in a different shuffled order per state (results mapped back by label), rmax = max of the reward matrix (the code asserts it); 92%% of MDPs are "
-                "resampled until some initial state is non-absorbing; distinct = structural hash of the whole case; "
-                "non-trivial = at least one state-action pair reached the threshold (value iteration ran)" % (5 if tier == "quick" else 6),
+                "resampled until some initial state is non-absorbing.  REUSE (20%% of MAIN): the same RMAX object is then trained on a second MDP of the same table size with a "
+                "different gamma and its own rewards/rmax (learner.rmax set to it); both trainings are judged, each with its own MDP.  SLOW-DECAY (about 8%%): 1-2 state zero-reward "
+                "cycle left with probability 1/8 or 1/16 to an absorbing state (the only positive reward on the exit), gamma in {63/64,127/128,255/256}, m in {1,2}, tolerance 1e-5: "
+                "when the first m samples of all cycle pairs stay in the cycle, value iteration needs thousands of sweeps; for this family ONLY the certificate (valid steps, tallies, upper bound, "
+                "unknown pairs, empirical Bellman residual, policy) is evaluated in Coq, the exact mirror is skipped as too slow.  "
+                "distinct = structural hash of (case, training); non-trivial = at least one state-action pair reached the threshold (value iteration ran)" % (5 if tier == "quick" else 6),
         "samples": [{"case": cases[0], "impl": impl[0]}] if cases else [],
-        "cases": len(cases), "cases_run": n_ok,
+        "cases": len(cases), "cases_run": n_ok, "trainings_judged": len(units),
         "certificate_checks": nchk, "certificate_rejections": len(rejected),
         "mirror_runs": nmir, "mirror_drift": drift, "mirror_fuel_exhausted": fuel_out,
         "mirror_action_rule_mismatch": act_mismatch,
